@@ -72,4 +72,29 @@ def handleDumpSpec (line : String) : String :=
     | _ => "bad"
   | _ => "bad"
 
+/-- `e2edump CMD SPECHEX => err=.. ran=.. report=.. panic=..`: the real run/profile command given a dump
+    specification; when the specification is invalid the command must fail and the program must not have run -/
+def handleE2eDump (line : String) : String :=
+  match line.splitOn " => " with
+  | [req, res] =>
+    match words req with
+    | [_, cmd, h] =>
+      match unhex h with
+      | none => "bad"
+      | some bytes =>
+        let cs := bytes.map Char.ofNat
+        let valid := (specDumpSpec cs).isSome
+        let modelValid := (parseDumpParams cs).isSome
+        let expect := if valid then "err=false ran=true" else "err=true ran=false report=false panic=false"
+        let got := res.trimAscii.toString
+        let okGo := if valid then got.startsWith expect else got == expect
+        let d := if modelValid == valid then "agree" else "DIFF spec:model"
+        let tag := if (got.splitOn "ran=true").length > 1 && !valid then "ran-before-validation"
+                   else if (got.splitOn "report=true").length > 1 && !valid then "report-written"
+                   else "result"
+        let v := if okGo then "specok" else s!"VIOL C20:e2e:{tag}:{cmd}:{h}:go={got.replace " " "_"}"
+        s!"{d} | {v} | e2edump.{cmd}"
+    | _ => "bad"
+  | _ => "bad"
+
 end Driver
